@@ -10,7 +10,7 @@ ID = "C15"
 RULE = ("case = designed backbone hydrogen-bond graph (helices of stride 3/4/5 with overlaps, antiparallel / parallel ladders with gaps of "
         "0-6 residues, isolated bridges, chain breaks, missing atoms) realised by synthetic coordinates, OR variant of a seed protein (bpti / 2EQQ / 1vii / lysozyme fragment of 6-60 residues): Gaussian noise 0-0.2 nm, unfolding "
         "stretch, deleted residues (chain breaks), missing backbone atoms, split into up to 3 chains, an interleaved water residue, trailing "
-        "non-protein residues, 1-4 frames; oracle = DSSP-2.2 rules (n-turns, minimal helices with H > G > I priority, bridges, ladders with "
+        "non-protein residues, 1-4 frames, optionally asked again on the same object after a backbone atom was renamed in place and again after the name was restored; oracle = DSSP-2.2 rules (n-turns, minimal helices with H > G > I priority, bridges, ladders with "
         "bulge merging, E/B, turns, bends) applied to the hydrogen-bond relation returned by md.kabsch_sander for that frame and the CA "
         "coordinates; 'NA' exactly for residues lacking N/CA/C/O; simplified = fixed 8->3 image; moving the atoms of incomplete residues "
         "away changes no other code; shape (n_frames, n_residues); non-trivial = >= 2 distinct non-blank codes, or an 'NA' between coded residues")
@@ -28,27 +28,63 @@ def strategy(draw, tier="quick"):
     if draw(st.booleans()):
         # designed backbone hydrogen-bond graph realised by synthetic coordinates (helix overlaps, ladders with gaps around the
         # bulge thresholds, chain breaks, missing atoms): reaches rule branches that perturbed real proteins almost never do
-        return {"design": draw(structs.designed_pattern())}
-    return {"p": draw(structs.variant_params(need_h=False, max_res=60 if tier == "quick" else 158))}
+        case = {"design": draw(structs.designed_pattern())}
+        if draw(st.integers(0, 5)) == 0:
+            case["rename_between"] = [draw(st.integers(0, 200)), draw(st.integers(0, 3))]
+        return case
+    case = {"p": draw(structs.variant_params(need_h=False, max_res=60 if tier == "quick" else 158))}
+    if draw(st.integers(0, 3)) == 0:
+        case["rename_between"] = [draw(st.integers(0, 200)), draw(st.integers(0, 3))]
+    return case
 
 
 def run_case(case):
-    import mdtraj as md
     viol, labels = [], ["seed:" + (case["p"]["seed_struct"] if "p" in case else "designed-pattern")]
+    state = {"codes": set(), "na_inside": False, "chain": []}
     with warnings.catch_warnings():
         warnings.simplefilter("ignore")
         t = structs.build(case["p"]) if "p" in case else structs.build_designed(case["design"])
+        _check(t, viol, labels, state, "")
+        rb = case.get("rename_between")
+        if rb and not viol:
+            # the same Trajectory object, asked again after a backbone atom was renamed in place (the residue becomes incomplete),
+            # and once more after the name was restored
+            bb = oracle_hb.backbone_indices(t.topology)
+            complete = [i for i, b in enumerate(bb) if min(b[:4]) >= 0]
+            if complete:
+                i = complete[rb[0] % len(complete)]
+                atom = t.topology.atom(bb[i][rb[1] % 4])
+                old = atom.name
+                labels.append("renamed-in-place:" + old)
+                try:
+                    atom.name = old + "X"
+                    _check(t, viol, labels, state, "after-rename/")
+                finally:
+                    atom.name = old
+                if not viol:
+                    _check(t, viol, labels, state, "after-restore/")
+    for c in sorted(state["codes"]):
+        labels.append("code:" + (c if c != " " else "blank"))
+    if len(set(state["chain"])) > 1:
+        labels.append("multi-chain")
+    nonblank = {c for c in state["codes"] if c != " "}
+    return {"viol": viol, "labels": labels, "nontrivial": bool(len(nonblank) >= 2 or state["na_inside"])}
+
+
+def _check(t, viol, labels, state, tag):
+    import mdtraj as md
+    if True:
         nf, nres = t.n_frames, t.n_residues
         ks = md.kabsch_sander(t)
         full = md.compute_dssp(t, simplified=False)
         simp = md.compute_dssp(t, simplified=True)
         if full.shape != (nf, nres) or simp.shape != (nf, nres):
-            return {"viol": [("shape", "%s / %s for %d frames x %d residues" % (full.shape, simp.shape, nf, nres))], "labels": labels, "nontrivial": False}
+            viol.append((tag + "shape", "%s / %s for %d frames x %d residues" % (full.shape, simp.shape, nf, nres)))
+            return
         bb = oracle_hb.backbone_indices(t.topology)
         skip = [min(b[:4]) < 0 for b in bb]
         chain = [b[5] for b in bb]
-        codes_seen = set()
-        na_inside = False
+        state["chain"] = chain
         for f in range(nf):
             M = ks[f].tocoo()
             hb = {(int(c), int(r)) for r, c in zip(M.row, M.col)}      # matrix[acceptor, donor]
@@ -58,27 +94,27 @@ def run_case(case):
                 got = full[f, i]
                 if skip[i]:
                     if got != "NA":
-                        viol.append(("incomplete-residue-not-NA", "frame %d residue %d (%s) lacks a backbone atom but is coded %r" % (f, i, t.topology.residue(i), got)))
+                        viol.append((tag + "incomplete-residue-not-NA", "frame %d residue %d (%s) lacks a backbone atom but is coded %r" % (f, i, t.topology.residue(i), got)))
                         break
                     continue
                 if got == "NA":
-                    viol.append(("complete-residue-NA", "frame %d residue %d (%s) has N, CA, C, O but is coded 'NA'" % (f, i, t.topology.residue(i))))
+                    viol.append((tag + "complete-residue-NA", "frame %d residue %d (%s) has N, CA, C, O but is coded 'NA'" % (f, i, t.topology.residue(i))))
                     break
-                codes_seen.add(got)
+                state["codes"].add(got)
                 if got != exp[i] and not bend_amb[i]:
                     lo, hi = max(0, i - 6), min(nres, i + 7)
-                    viol.append(("code-differs-from-rules", "frame %d residue %d: compute_dssp %r, DSSP rules on the kabsch_sander bonds %r; "
+                    viol.append((tag + "code-differs-from-rules", "frame %d residue %d: compute_dssp %r, DSSP rules on the kabsch_sander bonds %r; "
                                  "context got %r rules %r" % (f, i, got, exp[i], "".join(c if c != "NA" else "?" for c in full[f, lo:hi]),
                                                               "".join(exp[lo:hi]))))
                     break
                 if simp[f, i] != SIMPLE[got]:
-                    viol.append(("simplified-image", "frame %d residue %d: full %r simplified %r" % (f, i, got, simp[f, i])))
+                    viol.append((tag + "simplified-image", "frame %d residue %d: full %r simplified %r" % (f, i, got, simp[f, i])))
                     break
             if viol:
                 break
             coded = [i for i in range(nres) if not skip[i]]
             if coded and any(skip[i] for i in range(coded[0], coded[-1] + 1)):
-                na_inside = True
+                state["na_inside"] = True
         # incomplete residues never take part: moving their remaining atoms far away changes nothing else
         if not viol and any(skip) and any(not s for s in skip):
             x2 = t.xyz.copy()
@@ -92,16 +128,11 @@ def run_case(case):
             full2 = md.compute_dssp(t2, simplified=False)
             for i in range(nres):
                 if not skip[i] and (full2[:, i] != full[:, i]).any():
-                    viol.append(("incomplete-residue-takes-part", "residue %d changes from %r to %r when the atoms of incomplete residues are moved away" % (
+                    viol.append((tag + "incomplete-residue-takes-part", "residue %d changes from %r to %r when the atoms of incomplete residues are moved away" % (
                         i, full[:, i].tolist(), full2[:, i].tolist())))
                     break
-            labels.append("has-incomplete-residue")
-    for c in sorted(codes_seen):
-        labels.append("code:" + (c if c != " " else "blank"))
-    if len(set(chain)) > 1:
-        labels.append("multi-chain")
-    nonblank = {c for c in codes_seen if c != " "}
-    return {"viol": viol, "labels": labels, "nontrivial": bool(len(nonblank) >= 2 or na_inside)}
+            if not tag:
+                labels.append("has-incomplete-residue")
 
 
 TECHNIQUE = "property-based testing (Hypothesis) over perturbed / edited protein structures against an independent implementation of the DSSP rules fed with md.kabsch_sander's bonds"
